@@ -24,6 +24,7 @@ func init() {
 		Rule{ID: "R20a", Doc: "a response buffer is not written to the stream after it was released (a recycled buffer corrupts the frame; shared with C20)", Floor: 60, Run: r20a},
 		Rule{ID: "R09c", Doc: "stream responses are packed under the 65535 limit so that the 16-bit length prefix cannot wrap (shared with C09)", Floor: 6, Run: r09c},
 		Rule{ID: "R06c", Doc: "ReadMsgFromTCP reads the 2-byte prefix and the body with io.ReadFull (a short read must not be taken for a frame; shared with C06)", Floor: 6, AllVariants: true, Run: r06c},
+		Rule{ID: "R13e", Doc: "one frame, one Write on stream listeners", Floor: 4, Run: r13e},
 	)
 	reg("C19", "Structural necessary conditions of single-flight, non-delaying prefetch, decided for all paths: "+
 		"(R19a) the refresh goroutine is started only on the `reserve(key) == true` edge, exactly once, and calls done(key) with the same key on every path; reserve is a test-and-set and done a delete, both under the mutex, and nothing else writes the in-flight set; "+
@@ -38,7 +39,7 @@ func init() {
 		Rule{ID: "R19e", Doc: "in-flight key components", Floor: 4, Run: r19e},
 		Rule{ID: "R08a", Doc: "stores only on success (shared with C08)", Floor: 4, Run: r08a},
 		Rule{ID: "R08c", Doc: "a non-success refresh never displaces a stored entry (set-if-absent for every rcode but NOERROR; shared with C08)", Floor: 5, Run: r08c},
-		Rule{ID: "R12f", Doc: "the refresh is keyed and forwarded with the client address of the hit (shared with C12)", Floor: 6, Run: r12f},
+		Rule{ID: "R12f", Doc: "the refresh is keyed and forwarded with the client address of the hit (shared with C12)", Floor: 4, Run: r12f},
 	)
 }
 
